@@ -14,6 +14,7 @@ from __future__ import annotations
 
 import copy
 import random
+from fractions import Fraction
 
 from ..common import Result, finish, run_shards, seed as get_seed, shard_main
 
@@ -124,6 +125,19 @@ def compare(res, fp, genrun, refsem, src_shown, mod, ref, args, ctx, rich, amb, 
     return False
 
 
+WIDE = [2 ** 53 + 1, -(2 ** 63 + 5), 10 ** 22 + 1, 2 ** 70, Fraction(1, 3), Fraction(2 ** 60 + 1, 1024), Fraction(-7, 10), 3 ** 40]
+
+
+def widen(rng, a, p=0.12):
+    if isinstance(a, list):
+        return [widen(rng, x, p) for x in a]
+    if isinstance(a, tuple):
+        return tuple(widen(rng, x, p) for x in a)
+    if isinstance(a, bool) or not isinstance(a, (int, float)):
+        return a
+    return rng.choice(WIDE) if rng.random() < p else a
+
+
 def shard(i: int, n: int, tier: str, seed: int) -> Result:
     import fpy2 as fp
     from ..gen import prog as genprog, run as genrun
@@ -192,6 +206,8 @@ def shard(i: int, n: int, tier: str, seed: int) -> Result:
             shown = p.source[p.source.find('K3 = 3') + 7:]
             for k in range(ninputs):
                 args = genprog.gen_args(rng, p)
+                # arguments are never rounded on entry: values no binary64 holds (wide ints, thirds, 61-bit dyadics), scalars and elements
+                args = [a if t == 'I' else widen(rng, a) for a, t in zip(args, p.arg_types)]
                 ctx = rng.choice(callers)
                 if not compare(res, fp, genrun, refsem, shown, mod, ref, args, ctx, rich, amb):
                     break
